@@ -303,4 +303,34 @@ theorem shape_run (V width : Nat) :
     rw [← e]
     exact this
 
+/-! ### prefix-closed survivors (size classes of the harness: true mass without enumerating alignments) -/
+
+/-- The forward recursion of a prefix reads the prefix itself and its parent only. -/
+theorem stepFn_congr (V : Nat) (f : Frame) (S S' : List Nat → Rat × Rat) (p : List Nat)
+    (h1 : S p = S' p) (h2 : S p.dropLast = S' p.dropLast) : stepFn V f S p = stepFn V f S' p := by
+  unfold stepFn
+  simp only [h1, h2]
+
+/-- **Prefix-closed survivors lose nothing of their own mass, one run**: if the same prefix-closed set `Q`
+survives every frame, the map recursion agrees with the unpruned forward recursion on `Q`, provided it
+starts in agreement on `Q` (whatever happens outside `Q`). -/
+theorem beamRun_closed (V : Nat) (Q : List (List Nat)) (hQ : ∀ q ∈ Q, q.dropLast ∈ Q) :
+    ∀ (frames : List Frame) (bm : Beam) (S : List Nat → Rat × Rat),
+      (∀ q ∈ Q, bm.get q = S q) →
+      ∀ q ∈ Q, (beamRun V frames (List.replicate frames.length Q) bm).get q =
+        (frames.foldl (fun S f => stepFn V f S) S) q
+  | [], bm, S, h => by simpa [beamRun] using h
+  | f :: fs, bm, S, h => by
+    rw [List.length_cons, List.replicate_succ, beamRun_cons, List.foldl_cons]
+    apply beamRun_closed V Q hQ fs
+    intro q hq
+    have hc : stepFn V f bm.get q = stepFn V f S q :=
+      stepFn_congr V f _ _ q (h q hq) (h _ (hQ q hq))
+    rw [get_beamStep]
+    split
+    · exact hc
+    · rename_i hn
+      have : q ∉ cands V bm := fun hc' => hn ⟨hq, hc'⟩
+      rw [← hc, stepFn_eq_zero_of_not_mem_cands V f bm q this]
+
 end PdtVerif.Ctc
